@@ -1259,6 +1259,11 @@ def check(pid, tier, seed):
                     fn, info.get("status"), (info.get("reason") or "")[:200]))
         source_tie["proved"] = sum(1 for f in source_tie["functions"].values() if f["status"] == "proved")
         source_tie["of"] = len(source_tie["functions"])
+        if pid in ("C11", "C15") and source_tie["proved"] == source_tie["of"]:
+            # the property theorems restated about the source-derived definitions (SrcTie/Transfer.lean)
+            with R.Lock():
+                ok_tr, _ = R.lake_build(["UnicLocale.SrcTie.Transfer"])
+            source_tie["transfer_theorems"] = "UL.SrcTie.Transfer.* built" if ok_tr else "UL.SrcTie.Transfer does not build"
 
     # ---- correspondence + oracle
     known = [k for k in R.load_known() if k.get("property") == pid and k.get("status") == "known"]
